@@ -57,60 +57,60 @@ mod set_reach__to;
 mod set_reach__srcto;
 mod bset__pari;
 mod opt_lat__ser;
-mod lex_lat__pari;
-mod lat_multi_improve__par;
-mod lat_pre_join__topar;
-mod lat_input__par;
-mod lat_input__src1;
-mod count_paths__ser;
-mod count_paths__src0;
-mod count_paths__srcpar;
-mod neg_basic__gen;
-mod neg_basic__runpar;
-mod agg_minmaxsum__ser;
-mod agg_lattice__ser;
-mod neg_rec_after__ser;
-mod agg_empty__ser;
-mod agg_empty_rel__to;
-mod agg_pre_join__par;
-mod disj__mrt;
-mod disj__init;
-mod disj__exppar;
-mod pat_args__pari;
-mod multi_head_disj__ser;
-mod neg_in_disj__exp;
-mod mac_basic__mrt;
-mod mac_basic__init;
-mod mac_capture__exp;
-mod mac_gensym_disj__par;
-mod mac_local_names__exppar;
-mod mac_disj__pari;
-mod stress_set__pari;
-mod rnd_core_02__par;
-mod rnd_core_05__ser;
-mod rnd_core_07__pari;
-mod rnd_core_10__par;
-mod rnd_core_13__ser;
-mod rnd_core_15__pari;
-mod rnd_core_18__par;
-mod rnd_core_21__ser;
-mod rnd_core_23__pari;
-mod rnd_core_26__par;
-mod rnd_core_29__ser;
-mod rnd_agg_01__pari;
-mod rnd_agg_04__par;
-mod rnd_agg_07__ser;
-mod rnd_agg_09__pari;
-mod rnd_agg_12__par;
-mod rnd_agg_15__ser;
-mod rnd_prec_02__ser;
-mod rnd_prec_03__to;
-mod rnd_prec_05__par;
-mod rnd_prec_06__topar;
-mod rnd_prec_08__pari;
-mod rnd_prea_02__pari;
-mod rnd_prea_05__par;
-mod rnd_prea_08__ser;
+mod lex_dual_lat__ser;
+mod bool_lat__pari;
+mod lat_multi_improve__topar;
+mod lat_count_all__pari;
+mod lat_input__topar;
+mod lat_input__srcred;
+mod count_paths__to;
+mod count_paths__srcto;
+mod neg_basic__pari;
+mod neg_basic__src2;
+mod neg_basic__perm2;
+mod agg_depth__ser;
+mod agg_lattice__to;
+mod neg_rec_after__exp;
+mod agg_empty__to;
+mod agg_const_args__par;
+mod disj__par;
+mod disj__src1;
+mod disj__perm1;
+mod disj_nested__pari;
+mod rep_expr__ser;
+mod multi_head_disj__exp;
+mod mac_basic__par;
+mod mac_basic__src1;
+mod mac_basic__exp;
+mod mac_nested__par;
+mod mac_gensym_disj__exppar;
+mod mac_block__pari;
+mod stress_lat__ser;
+mod stress_rel__pari;
+mod rnd_core_03__par;
+mod rnd_core_06__ser;
+mod rnd_core_08__pari;
+mod rnd_core_11__par;
+mod rnd_core_14__ser;
+mod rnd_core_16__pari;
+mod rnd_core_19__par;
+mod rnd_core_22__ser;
+mod rnd_core_24__pari;
+mod rnd_core_27__par;
+mod rnd_core_30__ser;
+mod rnd_agg_02__pari;
+mod rnd_agg_05__par;
+mod rnd_agg_08__ser;
+mod rnd_agg_10__pari;
+mod rnd_agg_13__par;
+mod rnd_prec_01__ser;
+mod rnd_prec_02__to;
+mod rnd_prec_04__par;
+mod rnd_prec_05__topar;
+mod rnd_prec_07__pari;
+mod rnd_prea_01__ser;
+mod rnd_prea_03__pari;
+mod rnd_prea_06__par;
 
 fn lookup(name: &str) -> fn() -> Box<dyn Driven> {
    match name {
@@ -163,60 +163,60 @@ fn lookup(name: &str) -> fn() -> Box<dyn Driven> {
       "set_reach__srcto" => set_reach__srcto::make,
       "bset__pari" => bset__pari::make,
       "opt_lat__ser" => opt_lat__ser::make,
-      "lex_lat__pari" => lex_lat__pari::make,
-      "lat_multi_improve__par" => lat_multi_improve__par::make,
-      "lat_pre_join__topar" => lat_pre_join__topar::make,
-      "lat_input__par" => lat_input__par::make,
-      "lat_input__src1" => lat_input__src1::make,
-      "count_paths__ser" => count_paths__ser::make,
-      "count_paths__src0" => count_paths__src0::make,
-      "count_paths__srcpar" => count_paths__srcpar::make,
-      "neg_basic__gen" => neg_basic__gen::make,
-      "neg_basic__runpar" => neg_basic__runpar::make,
-      "agg_minmaxsum__ser" => agg_minmaxsum__ser::make,
-      "agg_lattice__ser" => agg_lattice__ser::make,
-      "neg_rec_after__ser" => neg_rec_after__ser::make,
-      "agg_empty__ser" => agg_empty__ser::make,
-      "agg_empty_rel__to" => agg_empty_rel__to::make,
-      "agg_pre_join__par" => agg_pre_join__par::make,
-      "disj__mrt" => disj__mrt::make,
-      "disj__init" => disj__init::make,
-      "disj__exppar" => disj__exppar::make,
-      "pat_args__pari" => pat_args__pari::make,
-      "multi_head_disj__ser" => multi_head_disj__ser::make,
-      "neg_in_disj__exp" => neg_in_disj__exp::make,
-      "mac_basic__mrt" => mac_basic__mrt::make,
-      "mac_basic__init" => mac_basic__init::make,
-      "mac_capture__exp" => mac_capture__exp::make,
-      "mac_gensym_disj__par" => mac_gensym_disj__par::make,
-      "mac_local_names__exppar" => mac_local_names__exppar::make,
-      "mac_disj__pari" => mac_disj__pari::make,
-      "stress_set__pari" => stress_set__pari::make,
-      "rnd_core_02__par" => rnd_core_02__par::make,
-      "rnd_core_05__ser" => rnd_core_05__ser::make,
-      "rnd_core_07__pari" => rnd_core_07__pari::make,
-      "rnd_core_10__par" => rnd_core_10__par::make,
-      "rnd_core_13__ser" => rnd_core_13__ser::make,
-      "rnd_core_15__pari" => rnd_core_15__pari::make,
-      "rnd_core_18__par" => rnd_core_18__par::make,
-      "rnd_core_21__ser" => rnd_core_21__ser::make,
-      "rnd_core_23__pari" => rnd_core_23__pari::make,
-      "rnd_core_26__par" => rnd_core_26__par::make,
-      "rnd_core_29__ser" => rnd_core_29__ser::make,
-      "rnd_agg_01__pari" => rnd_agg_01__pari::make,
-      "rnd_agg_04__par" => rnd_agg_04__par::make,
-      "rnd_agg_07__ser" => rnd_agg_07__ser::make,
-      "rnd_agg_09__pari" => rnd_agg_09__pari::make,
-      "rnd_agg_12__par" => rnd_agg_12__par::make,
-      "rnd_agg_15__ser" => rnd_agg_15__ser::make,
-      "rnd_prec_02__ser" => rnd_prec_02__ser::make,
-      "rnd_prec_03__to" => rnd_prec_03__to::make,
-      "rnd_prec_05__par" => rnd_prec_05__par::make,
-      "rnd_prec_06__topar" => rnd_prec_06__topar::make,
-      "rnd_prec_08__pari" => rnd_prec_08__pari::make,
-      "rnd_prea_02__pari" => rnd_prea_02__pari::make,
-      "rnd_prea_05__par" => rnd_prea_05__par::make,
-      "rnd_prea_08__ser" => rnd_prea_08__ser::make,
+      "lex_dual_lat__ser" => lex_dual_lat__ser::make,
+      "bool_lat__pari" => bool_lat__pari::make,
+      "lat_multi_improve__topar" => lat_multi_improve__topar::make,
+      "lat_count_all__pari" => lat_count_all__pari::make,
+      "lat_input__topar" => lat_input__topar::make,
+      "lat_input__srcred" => lat_input__srcred::make,
+      "count_paths__to" => count_paths__to::make,
+      "count_paths__srcto" => count_paths__srcto::make,
+      "neg_basic__pari" => neg_basic__pari::make,
+      "neg_basic__src2" => neg_basic__src2::make,
+      "neg_basic__perm2" => neg_basic__perm2::make,
+      "agg_depth__ser" => agg_depth__ser::make,
+      "agg_lattice__to" => agg_lattice__to::make,
+      "neg_rec_after__exp" => neg_rec_after__exp::make,
+      "agg_empty__to" => agg_empty__to::make,
+      "agg_const_args__par" => agg_const_args__par::make,
+      "disj__par" => disj__par::make,
+      "disj__src1" => disj__src1::make,
+      "disj__perm1" => disj__perm1::make,
+      "disj_nested__pari" => disj_nested__pari::make,
+      "rep_expr__ser" => rep_expr__ser::make,
+      "multi_head_disj__exp" => multi_head_disj__exp::make,
+      "mac_basic__par" => mac_basic__par::make,
+      "mac_basic__src1" => mac_basic__src1::make,
+      "mac_basic__exp" => mac_basic__exp::make,
+      "mac_nested__par" => mac_nested__par::make,
+      "mac_gensym_disj__exppar" => mac_gensym_disj__exppar::make,
+      "mac_block__pari" => mac_block__pari::make,
+      "stress_lat__ser" => stress_lat__ser::make,
+      "stress_rel__pari" => stress_rel__pari::make,
+      "rnd_core_03__par" => rnd_core_03__par::make,
+      "rnd_core_06__ser" => rnd_core_06__ser::make,
+      "rnd_core_08__pari" => rnd_core_08__pari::make,
+      "rnd_core_11__par" => rnd_core_11__par::make,
+      "rnd_core_14__ser" => rnd_core_14__ser::make,
+      "rnd_core_16__pari" => rnd_core_16__pari::make,
+      "rnd_core_19__par" => rnd_core_19__par::make,
+      "rnd_core_22__ser" => rnd_core_22__ser::make,
+      "rnd_core_24__pari" => rnd_core_24__pari::make,
+      "rnd_core_27__par" => rnd_core_27__par::make,
+      "rnd_core_30__ser" => rnd_core_30__ser::make,
+      "rnd_agg_02__pari" => rnd_agg_02__pari::make,
+      "rnd_agg_05__par" => rnd_agg_05__par::make,
+      "rnd_agg_08__ser" => rnd_agg_08__ser::make,
+      "rnd_agg_10__pari" => rnd_agg_10__pari::make,
+      "rnd_agg_13__par" => rnd_agg_13__par::make,
+      "rnd_prec_01__ser" => rnd_prec_01__ser::make,
+      "rnd_prec_02__to" => rnd_prec_02__to::make,
+      "rnd_prec_04__par" => rnd_prec_04__par::make,
+      "rnd_prec_05__topar" => rnd_prec_05__topar::make,
+      "rnd_prec_07__pari" => rnd_prec_07__pari::make,
+      "rnd_prea_01__ser" => rnd_prea_01__ser::make,
+      "rnd_prea_03__pari" => rnd_prea_03__pari::make,
+      "rnd_prea_06__par" => rnd_prea_06__par::make,
       _ => panic!("no such program variant in this shard: {}", name),
    }
 }
